@@ -1,4 +1,4 @@
-import Qryn.Proofs.JsonStr
+import Qryn.Proofs.JsonEsc
 /-! `Repr t v`: the text `t` is read by the parser as the value `v` (whatever follows, as long as it cannot
     extend a number). Combinators for strings, numbers, arrays, objects with optional whitespace; the
     compact printer; fuel adequacy. Core-only. -/
